@@ -1,13 +1,18 @@
+#![allow(non_snake_case, dead_code)]
 //! `dh` - conformance harness for the deserr TLA+ specifications.
 //! Every sub-command drives the real deserr code and writes an ndjson event trace on stdout
 //! (impl -> spec), optionally from replay records produced by TLC (spec -> impl) on stdin.
 mod bridge;
+mod core;
 mod dym;
 mod enc;
+#[rustfmt::skip]
+mod gen_cat;
 mod kinds;
 mod ov;
 mod scalar;
 mod ptr;
+mod rt;
 mod util;
 
 fn main() {
@@ -19,6 +24,7 @@ fn main() {
         Some("dym") => dym::main(rest),
         Some("scalar") => scalar::main(rest),
         Some("bridge") => bridge::main(rest),
+        Some("core") => core::main(rest),
         _ => {
             eprintln!("usage: dh <ptr|kinds|dym|scalar|bridge|core> ...");
             std::process::exit(2);
